@@ -63,7 +63,20 @@ class HttpRelayClient(RelayPoolClient):
         result, envelope = self.poll()
         if result and envelope:
             self.idle = False
-            self._handle_request(result, envelope)
+            try:
+                self._handle_request(result, envelope)
+            except gevent.Timeout:
+                if not result.ready():
+                    msg = 'Delivery timed out'
+                    reply = Reply('450', '4.4.2 ' + msg)
+                    result.set_exception(TransientRelayError(msg, reply))
+                raise
+            except Exception as exc:
+                if not result.ready():
+                    msg = 'Connection failed: ' + str(exc)
+                    reply = Reply('451', '4.3.0 ' + msg)
+                    result.set_exception(TransientRelayError(msg, reply))
+                raise
         else:
             if self.conn:
                 self.conn.close()
